@@ -1,6 +1,7 @@
 package main
 
 import (
+	"math"
 	"fmt"
 
 	"sigs.k8s.io/structured-merge-diff/v6/fieldpath"
@@ -672,10 +673,14 @@ func normalForm(gs *sgen.Schema, ref sgen.Ref, v interface{}) string {
 		}
 		return out + ">"
 	case int64:
-		return fmt.Sprintf("n%v", float64(t))
+		// exact: ints beyond 2^53 differ from their neighbours although their float64 images coincide
+		return fmt.Sprintf("n%d", t)
 	case float64:
 		if t == 0 {
 			return "n0"
+		}
+		if t == math.Trunc(t) && math.Abs(t) <= 1<<53 {
+			return fmt.Sprintf("n%d", int64(t))
 		}
 		return fmt.Sprintf("n%v", t)
 	case string:
